@@ -206,6 +206,11 @@ func loadProg(dir, goos, goarch string) (*Prog, error) {
 	// rename resolution (normalize.go): an anchor of the baseline that was renamed, or turned from a method
 	// into a function, is found under its baseline name as well
 	renamedTo = renamePairs(pkgs)
+	for _, fn := range p.srcFuncs {
+		if isNewHelper(fn) {
+			anyNewHelpers = true
+		}
+	}
 	for nk, ok := range renamedTo {
 		if fn := p.funcs[nk]; fn != nil && p.funcs[ok] == nil {
 			p.funcs[ok] = fn
